@@ -406,65 +406,81 @@ def minActiveLen (outLens : List Nat) (mask : List Bool) : Option Nat :=
 /-- fuel when no channel is active: nothing is written, the loop is only bounded by `end_idx` -/
 def idleFuel : Nat := 100000000
 
+/-- turn an evaluation fault into the outcome of the call -/
+def faultOutcome {α : Type} (f : Outcome Unit) : Outcome α :=
+  match f with
+  | .panic m => .panic m
+  | .abort m => .abort m
+  | _ => .panic "?"
+
+/-- second half of a fixed-INPUT call: `s` already holds the refilled buffer (`fill` = frames loaded).
+`fuel` = room in the output buffers. -/
+def AState.finishIn (s : AState ρ σ) (mask : List Bool) (fuel : Nat) : AState ρ σ × Outcome (CallOut σ) :=
+  let t0 : ρ := RNum.one / s.ratio
+  let t1 : ρ := RNum.one / s.target
+  let fillEnd : Int := 2 * (s.L : Int) + s.chunk
+  let approx : ρ := RNum.ofNat s.chunk * meanRatio s.ratio s.target
+  let inc : ρ := (t1 - t0) / approx
+  let endIdx : Int := (s.chunk : Int) - ((s.L : Int) + 1) - RNum.toInt (RNum.ceil t1)
+  let r := stepsIn inc (RNum.ofInt endIdx) fuel t0 s.lastIndex
+  let ps := r.1
+  if r.2.2 then
+    (s, if s.kind.isSinc then .panic "wave_out[n]" else .abort "get_unchecked_mut(n)")
+  else
+    match evalChannels s s.buf mask ps with
+    | .error f => (s, faultOutcome f)
+    | .ok outs =>
+      let stale := ps.any fun p => decide (readEnd s p > fillEnd)
+      ({ s with lastIndex := r.2.1 - RNum.ofNat s.chunk, ratio := s.target },
+        .ok { nIn := s.chunk, nOut := ps.length, out := outs, stale })
+
+/-- second half of a fixed-OUTPUT call: `s` already holds the refilled buffer, `s.fill` = frames loaded
+by this call (= the `needed` the call was validated against). -/
+def AState.finishOut (s : AState ρ σ) (mask : List Bool) : AState ρ σ × Outcome (CallOut σ) :=
+  let t0 : ρ := RNum.one / s.ratio
+  let t1 : ρ := RNum.one / s.target
+  let fillEnd : Int := 2 * (s.L : Int) + s.fill
+  let inc : ρ := (t1 - t0) / RNum.ofNat s.chunk
+  let ps := stepsOut inc s.chunk t0 s.lastIndex
+  match evalChannels s s.buf mask ps with
+  | .error f => (s, faultOutcome f)
+  | .ok outs =>
+    let stale := ps.any fun p => decide (readEnd s p > fillEnd)
+    let last := stepsOutLast inc s.chunk t0 s.lastIndex - RNum.ofNat s.fill
+    let needed' := match s.kind with
+      | .fastOut => neededFastAfter last s.chunk s.target s.L
+      | _ => neededSinc last s.chunk s.target s.target s.L
+    ({ s with lastIndex := last, ratio := s.target, needed := needed' },
+      .ok { nIn := s.fill, nOut := s.chunk, out := outs, stale })
+
+/-- frames a call must be given / frames the output buffers must hold -/
+def AState.minIn (s : AState ρ σ) : Nat := if s.kind.isFixedIn then s.chunk else s.needed
+def AState.minOut (s : AState ρ σ) : Nat :=
+  if s.kind.isFixedIn then outNextIn s.chunk s.ratio s.target else s.chunk
+
+/-- where the history to keep starts: FastFixedIn has no `current_buffer_fill`, it uses `chunk_size` -/
+def AState.shiftFrom (s : AState ρ σ) : Nat :=
+  match s.kind with
+  | .fastIn => s.chunk
+  | _ => s.fill
+
 /-- `process_into_buffer` of the four asynchronous resamplers. -/
 def AState.process (s : AState ρ σ) (a : CallArgs σ) : AState ρ σ × Outcome (CallOut σ) :=
   match updateMask s.nch a.mask with
   | .error e => (s, .err e)
   | .ok mask =>
     let s := { s with mask := mask }
-    let inLens := a.input.map Array.size
-    let fixedIn := s.kind.isFixedIn
-    let minIn := if fixedIn then s.chunk else s.needed
-    let minOut := if fixedIn then outNextIn s.chunk s.ratio s.target else s.chunk
-    match validateBuffers inLens a.outLens mask s.nch minIn minOut with
+    match validateBuffers (a.input.map Array.size) a.outLens mask s.nch s.minIn s.minOut with
     | .error e => (s, .err e)
     | .ok () =>
-      let shiftFrom := match s.kind with
-        | .fastIn => s.chunk
-        | _ => s.fill
-      match refill s mask a.input shiftFrom minIn with
+      match refill s mask a.input s.shiftFrom s.minIn with
       | none => (s, .panic "copy_within/copy_from_slice")
       | some buf =>
-        let s := { s with buf := buf, fill := minIn }
-        let t0 : ρ := RNum.one / s.ratio
-        let t1 : ρ := RNum.one / s.target
-        let fillEnd : Int := 2 * (s.L : Int) + minIn
-        if fixedIn then
-          let approx : ρ := RNum.ofNat s.chunk * meanRatio s.ratio s.target
-          let inc : ρ := (t1 - t0) / approx
-          let endIdx : Int := (s.chunk : Int) - ((s.L : Int) + 1) - RNum.toInt (RNum.ceil t1)
-          let fuel := match minActiveLen a.outLens mask with
+        let s := { s with buf := buf, fill := s.minIn }
+        if s.kind.isFixedIn then
+          s.finishIn mask (match minActiveLen a.outLens mask with
             | some n => n
-            | none => idleFuel
-          let r := stepsIn inc (RNum.ofInt endIdx) fuel t0 s.lastIndex
-          let ps := r.1
-          if r.2.2 then
-            (s, if s.kind.isSinc then .panic "wave_out[n]" else .abort "get_unchecked_mut(n)")
-          else
-            match evalChannels s buf mask ps with
-            | .error f => (s, match f with
-                | .panic m => .panic m
-                | .abort m => .abort m
-                | _ => .panic "?")
-            | .ok outs =>
-              let stale := ps.any fun p => decide (readEnd s p > fillEnd)
-              let s' := { s with lastIndex := r.2.1 - RNum.ofNat s.chunk, ratio := s.target }
-              (s', .ok { nIn := s.chunk, nOut := ps.length, out := outs, stale })
-        else
-          let inc : ρ := (t1 - t0) / RNum.ofNat s.chunk
-          let ps := stepsOut inc s.chunk t0 s.lastIndex
-          match evalChannels s buf mask ps with
-          | .error f => (s, match f with
-              | .panic m => .panic m
-              | .abort m => .abort m
-              | _ => .panic "?")
-          | .ok outs =>
-            let stale := ps.any fun p => decide (readEnd s p > fillEnd)
-            let last := stepsOutLast inc s.chunk t0 s.lastIndex - RNum.ofNat minIn
-            let needed' := match s.kind with
-              | .fastOut => neededFastAfter last s.chunk s.target s.L
-              | _ => neededSinc last s.chunk s.target s.target s.L
-            let s' := { s with lastIndex := last, ratio := s.target, needed := needed' }
-            (s', .ok { nIn := minIn, nOut := s.chunk, out := outs, stale })
+            | none => idleFuel)
+        else s.finishOut mask
 
 end Rubato
